@@ -156,8 +156,51 @@ Definition full_table : list site := access_table ++ user_sites.
 Lemma table_race_free : race_free exemptions full_table = true.
 Proof. vm_compute. reflexivity. Qed.
 
-Lemma lock_order_acyclic : acyclic lock_order = true /\ reacquire_count = 0%N.
+Lemma lock_order_acyclic : ranked lock_order = true /\ reacquire_count = 0%N.
 Proof. vm_compute. split; reflexivity. Qed.
+
+Example lock_order_nontrivial : (5 <? List.length lock_order)%nat = true /\ acyclic lock_order = true.
+Proof. vm_compute. split; reflexivity. Qed.
+
+(* ---- lock order ------------------------------------------------------------------------- *)
+Inductive gpath (g : list (string * string)) : string -> string -> Prop :=
+| gpath1 x y : In (x, y) g -> gpath g x y
+| gpathS x y z : In (x, y) g -> gpath g y z -> gpath g x z.
+
+Lemma ranked_path g x y :
+  ranked g = true -> gpath g x y ->
+  height g (S (List.length g)) y < height g (S (List.length g)) x.
+Proof.
+  intros Hr Hp. unfold ranked in Hr. rewrite forallb_forall in Hr.
+  induction Hp as [x y Hin | x y z Hin _ IH].
+  - specialize (Hr _ Hin). cbn [fst snd] in Hr. apply Nat.ltb_lt in Hr. exact Hr.
+  - specialize (Hr _ Hin). cbn [fst snd] in Hr. apply Nat.ltb_lt in Hr. lia.
+Qed.
+
+Theorem ranked_no_cycle g x : ranked g = true -> ~ gpath g x x.
+Proof. intros Hr Hp. pose proof (ranked_path g x x Hr Hp). lia. Qed.
+
+(* A deadlock among mutexes is a cycle of goroutines each holding one mutex and waiting for the
+   next one's; each such (held, wanted) pair is an "acquired while holding" edge of the code. *)
+Fixpoint wait_chain (g : list (string * string)) (first : string) (cur : string) (ws : list (string * string)) : Prop :=
+  match ws with
+  | [] => cur = first
+  | (h, w) :: rest => h = cur /\ In (h, w) g /\ wait_chain g first w rest
+  end.
+
+Lemma wait_chain_path g first cur ws :
+  ws <> [] -> wait_chain g first cur ws -> gpath g cur first.
+Proof.
+  revert cur. induction ws as [|[h w] rest IH]; intros cur Hne Hc; [congruence|].
+  cbn in Hc. destruct Hc as [-> [Hin Hrest]].
+  destruct rest as [|p rest'].
+  - cbn in Hrest. subst w. apply gpath1. exact Hin.
+  - eapply gpathS; [exact Hin|]. apply IH; [discriminate| exact Hrest].
+Qed.
+
+Theorem no_mutex_deadlock g first ws :
+  ranked g = true -> ws <> [] -> ~ wait_chain g first first ws.
+Proof. intros Hr Hne Hc. exact (ranked_no_cycle g first Hr (wait_chain_path g first first ws Hne Hc)). Qed.
 
 (* Every two accesses to one field, one of them a write, anywhere in the package's source, are
    separated by one of the recorded reasons; and where the reason is a common mutex, no
@@ -171,9 +214,9 @@ Theorem access_discipline :
      \/ published a b = true \/ published b a = true
      \/ same_thread a b = true
      \/ exempt exemptions a b = true)
-  /\ acyclic lock_order = true /\ reacquire_count = 0%N.
+  /\ (forall first ws, ws <> [] -> ~ wait_chain lock_order first first ws) /\ reacquire_count = 0%N.
 Proof.
-  split; [|exact lock_order_acyclic].
+  split; [|split; [intros first ws; apply no_mutex_deadlock; exact (proj1 lock_order_acyclic) | exact (proj2 lock_order_acyclic)]].
   intros a b Ha Hb Hf Hw.
   destruct (race_free_sound _ _ table_race_free a b Ha Hb) as [C|X]; [|do 6 right; exact X].
   unfold compatible in C. rewrite Hf, String.eqb_refl in C. cbn [negb orb] in C.
